@@ -87,3 +87,71 @@ Example C01_xml_doc_roundtrip_example :
     Some (clear_dflt (prune (fun n => negb (d_dflt n)) ex_forest)) /\
   length (prune (fun n => negb (d_dflt n)) ex_forest) = 1%nat.
 Proof. vm_compute. repeat split. Qed.
+
+(* ------------------------------------------------------------------------------------------- *)
+(* JSON                                                                                          *)
+(* ------------------------------------------------------------------------------------------- *)
+From LY Require Import JsonText JsonDoc JsonDocP.
+
+(* [json_doc sch t jk f] is the compact rendering of the RFC 7951 value of the forest ([json_tree]: member names
+   qualified where the module changes, contiguous (leaf-)list instances as arrays, int64 / uint64 / decimal64 / strings
+   as strings, other numbers and booleans as literals, empty as [null], metadata objects per RFC 7952). [json_parse] is
+   the reader of the libyang side: the RFC 8259 grammar with the model of lyjson_string() for strings, then the
+   schema-directed conversion. Data hypotheses [JDocN .. SV_ly]: as for XML, with the value of a term constrained by
+   its JSON class (strings: characters the lexer accepts; numbers: RFC 8259 number tokens; booleans: true / false; empty:
+   no value).
+
+   PARTIAL: the statement is about [json_doc], not about [json_print_all] (the transcription of printer_json.c WITH its
+   state: level, level_printed, open arrays, first_leaflist). What is missing is the lemma
+       json_print_all sch t jk f = json_doc sch t jk f      for canonical forests,
+   which is not proved; it is CHECKED by the correspondence run on every generated case (libyang's bytes = the
+   state machine's bytes = json_doc of the selected part, in the explicit and report-all modes; answer field D). In trim
+   mode the lemma is false of the code (finding json-trim-leaflist-meta). *)
+Theorem C01_json_doc_roundtrip_partial :
+  forall sch t jk f,
+    tabs_okb sch t = true -> Canon sch f -> Forall (JDocN sch t jk SV_ly) f ->
+    json_parse sch t jk (json_doc sch t jk f) = Some (clear_dflt f).
+Proof. exact json_doc_roundtrip_proof. Qed.
+Print Assumptions C01_json_doc_roundtrip_partial.
+
+(* the hypotheses as boolean checks *)
+Theorem C01_json_doc_roundtrip_checked_partial :
+  forall sch t jk f,
+    tabs_okb sch t = true -> canonb sch None f = true -> forallb (jdocb sch t jk jlexb) f = true ->
+    json_parse sch t jk (json_doc sch t jk f) = Some (clear_dflt f).
+Proof.
+  intros sch t jk f Ht HC HD. apply json_doc_roundtrip_proof; [exact Ht|apply canonb_spec, HC|].
+  rewrite forallb_forall in HD. apply Forall_forall. intros x Hx. apply (jdocb_spec sch t jk jlexb SV_ly x jlexb_spec), HD, Hx.
+Qed.
+Print Assumptions C01_json_doc_roundtrip_checked_partial.
+
+(* non-vacuity: every JSON class (string with escapes and a multi-byte character, number, boolean, empty), a list with
+   two instances, a leaf-list whose second instance carries metadata, metadata on a list instance and on a leaf; the state
+   machine prints exactly the rendering on it *)
+Definition exj_sch : schema :=
+  [(0, mk_sinfo (KCont false) None [] false true [] [] false 0 None OBytes);
+   (1, mk_sinfo KLeaf (Some 0) [] false true [] [] false 0 None OBytes);
+   (2, mk_sinfo KList (Some 0) [3] true true [] [] false 0 None OInt);
+   (3, mk_sinfo KLeaf (Some 2) [] false true [] [] false 0 None OInt);
+   (4, mk_sinfo KLeafList (Some 2) [] true true [] [] false 0 None OBytes);
+   (5, mk_sinfo KLeaf (Some 2) [] false true [] [] false 0 None OBool);
+   (6, mk_sinfo KLeaf None [] false true [] [] false 0 None OBytes)].
+Definition exj_tabs : doctabs :=
+  mk_doctabs [(0, (0, [99])); (1, (0, [108; 102])); (2, (0, [108])); (3, (0, [107])); (4, (0, [108; 108])); (5, (0, [98])); (6, (0, [101]))]
+             [(0, mk_modinfo [109; 49] [109; 49] [117; 114; 110; 58; 109; 49])].
+Definition exj_kinds : list (sid * jkind) := [(1, JStr); (3, JNum); (4, JStr); (5, JBool); (6, JEmpty)].
+Definition exj_forest : forest :=
+  [DN 0 [] false []
+      [DN 1 [97; 34; 92; 13; 9; 10; 98] false [([109; 49; 58; 110; 111; 116; 101], [120])] [];
+       DN 2 [] false [([109; 49; 58; 110; 111; 116; 101], [34; 9])]
+          [DN 3 [45; 49; 50] false [] []; DN 4 [] false [] []; DN 4 [195; 169] false [([109; 49; 58; 110; 111; 116; 101], [])] [];
+           DN 5 [116; 114; 117; 101] false [] []];
+       DN 2 [] false [] [DN 3 [55] false [] []]];
+   DN 6 [] false [] []].
+
+Example C01_json_doc_roundtrip_example :
+  tabs_okb exj_sch exj_tabs = true /\ canonb exj_sch None exj_forest = true /\
+  forallb (jdocb exj_sch exj_tabs exj_kinds jlexb) exj_forest = true /\
+  json_print_all exj_sch exj_tabs exj_kinds exj_forest = json_doc exj_sch exj_tabs exj_kinds exj_forest /\
+  json_parse exj_sch exj_tabs exj_kinds (json_print_all exj_sch exj_tabs exj_kinds exj_forest) = Some (clear_dflt exj_forest).
+Proof. vm_compute. repeat split. Qed.
